@@ -660,11 +660,16 @@ func TestHistories(t *testing.T) {
 			case r < 89: // protected peers
 				w.protect = map[int]bool{}
 				var list []boson.Address
+				// one refresh in four clears the list (empty or nil): nobody is protected afterwards
+				clear := rng.Intn(4) == 0
 				for _, p := range w.peers {
-					if rng.Intn(6) == 0 {
+					if !clear && rng.Intn(6) == 0 {
 						w.protect[p.idx] = true
 						list = append(list, boson.NewAddress(p.addr))
 					}
+				}
+				if clear && rng.Intn(2) == 0 {
+					list = []boson.Address{}
 				}
 				k.RefreshProtectPeer(list)
 				w.note("protect(%d peers)", len(list))
